@@ -38,7 +38,7 @@ def line_checker(ctx, table, c, i, m, n, st):
 def run(ctx):
     ctx.audit()
     if ctx.tier == "quick": st, dist = V.run_profile(ctx, "C02", 150, 20, 2500, line_checker=line_checker)
-    else: st, dist = V.run_profile(ctx, "C02", 900, 40, 6000, modes=("shipped", "san"), line_checker=line_checker)
+    else: st, dist = V.run_profile(ctx, "C02", 600, 35, 6000, modes=("shipped", "san"), line_checker=line_checker)
     ctx.coverage["evaluations"] = st["values"] + st["lookups"]
     ctx.coverage["distinct_nontrivial"] = len(st["distinct"])
     ctx.coverage["rule"] = "profile C02 of harness/eval_harness.cpp: C01's table space (mostly non-repeated knots), random derivative bitmasks (all subsets), ndsplineeval_deriv with per-dimension derivative orders 0..order+1 (orders >= 2 only on strictly increasing knots), both precisions; non-trivial = lookup ok and value inside the envelope; distinct = distinct case lines"
